@@ -110,14 +110,14 @@ ApiStep(root, c, env) ==
                   ELSE Res(Put(AppendAll([o EXCEPT !.reset = FALSE], c.vals)), "ok", <<>>, <<>>, env.nv2)
              [] c.op = "setmulti" ->
                   IF c.vals = <<>> THEN NoChange("fail")
-                  ELSE IF o.type \in {"sec", "func", "ptr"} THEN NoChange("unspec")
+                  ELSE IF o.type \in {"sec", "func", "ptr"} \/ "parse" \in o.cb THEN NoChange("unspec")
                   ELSE IF ~IsList(o) /\ Len(c.vals) > 1 THEN NoChange("unspec")
                   ELSE LET vs == ConvAll(o.type, c.vals)
                        IN IF ~vs.ok THEN NoChange("fail")
                           ELSE Res(Put([o EXCEPT !.vals = vs.vals, !.reset = FALSE, !.mod = TRUE]),
                                    "ok", <<>>, <<>>, env.nv2)
              [] c.op = "setopt" ->
-                  IF o.type \in {"sec", "func", "ptr"} THEN NoChange("unspec")
+                  IF o.type \in {"sec", "func", "ptr"} \/ "parse" \in o.cb THEN NoChange("unspec")
                   ELSE LET v == Conv(o.type, c.val)
                        IN IF v = Bad THEN NoChange("fail")
                           ELSE Res(Put(StoreValue(o, v)), "ok", <<>>, <<>>, env.nv2)
